@@ -63,8 +63,11 @@ Definition inode_ok (n : nat) (nd : inode) : bool :=
   | ILeaf _ c => N.of_nat c <? W16
   | IInner cs => (Nlen cs <? W16) && forallb (fun c => Nat.ltb c n) cs
   end.
-Definition count_nodes (t : nat) (ps : list (pid * N)) : nat :=
-  length (filter (fun jg => match fst jg with PNode u _ => Nat.eqb u t | _ => false end) ps).
+Definition is_node (t n : nat) (p : pid) : bool :=
+  match p with PNode u i => Nat.eqb u t && Nat.ltb i n | _ => false end.
+(* how many pieces of the file order are nodes 0..n-1 of tree t *)
+Definition count_nodes (t n : nat) (ps : list (pid * N)) : nat :=
+  length (filter (fun jg => is_node t n (fst jg)) ps).
 (* node store [nodes] is a tree over items 0..n-1: every child index is a node of the store, the walk
    from node 0 resolves within depth h and lists the items in order *)
 Definition tree_ok (h : nat) (nodes : list inode) (n : nat) : bool :=
@@ -116,7 +119,7 @@ Definition wf_trees (bt : list (list binfo)) : bool :=
   Nat.eqb (length (l_trees L)) (length bt)
   && forallb (fun t => let nodes := nth t (l_trees L) [] in
                        tree_ok (length nodes) nodes (length (nth t bt []))
-                       && (sk_size nodes (length nodes) 0 <=? count_nodes t (l_order L))%nat)
+                       && (sk_size nodes (length nodes) 0 <=? count_nodes t (length nodes) (l_order L))%nat)
              (seq 0 (length bt)).
 (* placement: everything referred to is in the file, below 2^64 *)
 Definition wf_place (bt : list (list binfo)) : bool :=
